@@ -579,6 +579,24 @@ func (h h6) Gen(prop, tier string, r *simrt.Rng) (any, simrt.Config) {
 			c.MaxFailRate = simrt.Pick(r, -1, 101, 1000)
 			c.Driver = "cli"
 			c.Input.WellFormed = false
+		case 6:
+			if mode == "gaussian" {
+				// a peak far outside the repeat window (someone shortened --repeat and kept the default 14 h peak)
+				rep, _ := time.ParseDuration(c.Flags["repeat"])
+				sd, _ := time.ParseDuration(c.Flags["standard-deviation"])
+				k := simrt.Pick(r, 2, 5, 7, 8, 9, 12, 40, 500)
+				c.Flags["peak"] = (rep + time.Duration(k)*sd + time.Duration(r.Intn(1000))*time.Millisecond).String()
+				if r.Intn(3) == 0 {
+					c.Flags["peak"] = simrt.Pick(r, "14h", "24h", "1000h")
+				}
+				if r.Intn(3) == 0 {
+					// a repeat window of one tick, or shorter than a tick
+					f, _ := time.ParseDuration(c.Flags["iteration-frequency"])
+					c.Flags["repeat"] = simrt.Pick(r, f, f/2, f+time.Millisecond, 2*f, f-time.Millisecond).String()
+					c.Flags["peak"] = simrt.Pick(r, "0s", "1ms", c.Flags["repeat"])
+				}
+				c.Input.WellFormed = false
+			}
 		}
 		c.Input.Input = fmt.Sprintf("%s %v c=%d maxdur=%s", mode, c.Flags, c.Concurrency, durStr(c.MaxDurationNs))
 	default: // YAML documents: well-formed, with fields dropped / odd values, or hit by a disk fault
